@@ -58,7 +58,7 @@ func (c *rcControl) DeleteStatefulPod(set *apps.StatefulSet, pod *v1.Pod) error 
 
 type rcPod struct {
 	Ord   int    `json:"ordinal"`
-	State string `json:"state"` // healthy pending failed succeeded terminating unready
+	State string `json:"state"` // healthy pending failed succeeded terminating unready unknown failed-terminating succeeded-terminating
 	Rev   string `json:"revision"`
 }
 
@@ -166,6 +166,14 @@ func rcRun(c *rcCase) (status *apps.StatefulSetStatus, ctl *rcControl, snapshot 
 			pod.DeletionTimestamp = &now
 		case "unknown":
 			pod.Status.Phase = v1.PodUnknown
+		case "failed-terminating", "succeeded-terminating":
+			// a finished pod whose delete has been issued and which is still there
+			pod.Status.Phase = v1.PodFailed
+			if p.State == "succeeded-terminating" {
+				pod.Status.Phase = v1.PodSucceeded
+			}
+			now := metav1.Now()
+			pod.DeletionTimestamp = &now
 		}
 		snapshot = append(snapshot, pod)
 	}
@@ -441,7 +449,7 @@ func rcGen(rng *rand.Rand, prop string) *rcCase {
 		if rng.Intn(3) == 0 {
 			continue
 		}
-		st := []string{"healthy", "healthy", "healthy", "healthy", "healthy", "healthy", "pending", "failed", "succeeded", "terminating", "unready", "unknown"}[rng.Intn(12)]
+		st := []string{"healthy", "healthy", "healthy", "healthy", "healthy", "healthy", "pending", "failed", "succeeded", "terminating", "unready", "unknown", "failed-terminating", "succeeded-terminating"}[rng.Intn(14)]
 		rv := []string{"current", "update", "update", "third"}[rng.Intn(4)]
 		c.Pods = append(c.Pods, rcPod{o, st, rv})
 	}
@@ -484,6 +492,6 @@ func TestReplayReconcile(t *testing.T) {
 		found++
 	}
 	if found == 0 {
-		fmt.Printf("NOT-REPRODUCED bounded search: %d seeded cases (replicas 0..3 or 8..10, slots within {0,1,2,4}, pods at ordinals 0..5 or 0..12, seven pod states, both policies, strategies, partitions 0..5)\n", n)
+		fmt.Printf("NOT-REPRODUCED bounded search: %d seeded cases (replicas 0..3 or 8..10, slots within {0,1,2,4}, pods at ordinals 0..5 or 0..12, nine pod states, both policies, strategies, partitions 0..5)\n", n)
 	}
 }
